@@ -416,6 +416,7 @@ type Clause struct {
 	Pos  string
 	Idx  int // ordinal among clauses of this kind in the contract
 	Tag  string // optional "[C05]" label: which property the clause belongs to
+	Pkg  string // package the contract file belongs to: type names in the clause resolve there first
 }
 
 // label renders the clause ordinal with its tag, e.g. "3[C05]".
@@ -707,27 +708,27 @@ func ParseContractFile(path, pkgPath string) ([]*Contract, error) {
 			pos := fmt.Sprintf("%s:%d", path, ln+1)
 			switch m[1] {
 			case "requires":
-				curClause = &Clause{Kind: "requires", Text: m[2], Pos: pos, Idx: len(cur.Requires) + 1}
+				curClause = &Clause{Kind: "requires", Text: m[2], Pos: pos, Pkg: pkgPath, Idx: len(cur.Requires) + 1}
 				cur.Requires = append(cur.Requires, curClause)
 			case "ensures":
-				curClause = &Clause{Kind: "ensures", Text: m[2], Pos: pos, Idx: len(cur.Ensures) + 1}
+				curClause = &Clause{Kind: "ensures", Text: m[2], Pos: pos, Pkg: pkgPath, Idx: len(cur.Ensures) + 1}
 				cur.Ensures = append(cur.Ensures, curClause)
 			case "invariant":
-				curClause = &Clause{Kind: "invariant", Text: m[2], Pos: pos, Idx: len(cur.Invs) + 1}
+				curClause = &Clause{Kind: "invariant", Text: m[2], Pos: pos, Pkg: pkgPath, Idx: len(cur.Invs) + 1}
 				cur.Invs = append(cur.Invs, curClause)
 			case "set":
 				i := strings.Index(m[2], ":=")
 				if i < 0 {
 					return nil, fmt.Errorf("%s: set needs `lhs := expr`", pos)
 				}
-				curClause = &Clause{Kind: "set:" + strings.TrimSpace(m[2][:i]), Text: m[2][i+2:], Pos: pos, Idx: len(cur.Sets) + 1}
+				curClause = &Clause{Kind: "set:" + strings.TrimSpace(m[2][:i]), Text: m[2][i+2:], Pos: pos, Pkg: pkgPath, Idx: len(cur.Sets) + 1}
 				cur.Sets = append(cur.Sets, curClause)
 			case "records":
 				i := strings.Index(m[2], ":=")
 				if i < 0 {
 					return nil, fmt.Errorf("%s: records needs `#g := expr`", pos)
 				}
-				curClause = &Clause{Kind: "records:" + strings.TrimSpace(m[2][:i]), Text: m[2][i+2:], Pos: pos, Idx: len(cur.Records) + 1}
+				curClause = &Clause{Kind: "records:" + strings.TrimSpace(m[2][:i]), Text: m[2][i+2:], Pos: pos, Pkg: pkgPath, Idx: len(cur.Records) + 1}
 				cur.Records = append(cur.Records, curClause)
 			case "modifies":
 				cur.HasMod = true
